@@ -372,7 +372,7 @@ Ltac t_binds H s0 :=
     |intros svc0 p0 b0 Hg0; simpl in Hg0; first [eexists; exact Hg0 | eapply binds_set_existing; eassumption]
     |eassumption]).
 
-Lemma TInv_exec_msg c s txh m s' : exec_msg c s txh m = Okk s' -> TInv s -> TInv s'.
+Lemma TInv_exec_msg_plain c s txh m s' : exec_msg_plain c s txh m = Okk s' -> TInv s -> TInv s'.
 Proof.
   intros H Hinv. destruct m; simpl in H.
   - unfold define in H. t_binds H s.
@@ -391,6 +391,65 @@ Proof.
   - unfold msg_ctl, k_kill in H. t_binds H s.
   - unfold update_context in H. t_binds H s.
   - eapply TInv_withdraw; eassumption.
+Qed.
+
+Lemma filter_provs_bound s x : forall ps0 ps, filter_provs s x ps0 = Some ps ->
+  forall p, In p ps -> exists b, get (x_svc x, p) (binds s) = Some b.
+Proof.
+  induction ps0 as [|p0 ps0 IH]; simpl; intros ps H p Hin; [inversion H; subst; contradiction|].
+  destruct (get (x_svc x, p0) (binds s)) as [b|] eqn:Eg; [|eapply IH; eassumption].
+  destruct (b_avail b && (b_qos b <=? x_timeout x)); [|eapply IH; eassumption].
+  match type of H with match ?g with _ => _ end = _ => destruct g; [|discriminate] end.
+  destruct (filter_provs s x ps0) as [ps'|] eqn:Ef; [|discriminate].
+  destruct (dec_truncate_int _ <=? x_cap x); inversion H; subst; [|eapply IH; [reflexivity|exact Hin]].
+  destruct Hin as [<-|Hin]; [exists b; exact Eg|eapply IH; [reflexivity|exact Hin]].
+Qed.
+
+(** *** a call to a module-served service *)
+Lemma TInv_call_module c s txh svc provs cons inok capd capa timeout rep freq total s' :
+  call_module c s txh svc provs cons inok capd capa timeout rep freq total = Okk s' -> TInv s -> TInv s'.
+Proof.
+  unfold call_module. intros H Hinv.
+  destruct (negb _); [discriminate|].
+  destruct (create_context c s txh svc [c_mprov c] cons inok capd capa 1 false 0 0 0 0 false) as [[s1 id]|] eqn:E1; [|discriminate].
+  assert (T1 : TInv s1) by (clear H; unfold create_context in E1; t_binds E1 s).
+  destruct (get id (ctxs s1)) as [x|] eqn:Ex; [|discriminate].
+  destruct (filter_provs s1 x (x_provs x)) as [[|p0 ps]|] eqn:Ef; try discriminate.
+  destruct (debit_all (led s1) (x_cons x) (total_fees s1 x [c_mprov c])) as [l|]; [|discriminate].
+  set (sl := with_led s1 (credit_all l REQ (total_fees s1 x [c_mprov c]))) in *.
+  set (s2 := initiate_ms sl id x [c_mprov c]) in *.
+  (* the provider that passed the filter is the module's provider, and it is bound *)
+  assert (Hxp : x_provs x = [c_mprov c] /\ x_svc x = svc).
+  { clear -E1 Ex. unfold create_context in E1. repeat dmn E1; inversion E1; subst; clear E1; simpl in Ex;
+      rewrite get_set_same in Ex; inversion Ex; subst; split; reflexivity. }
+  destruct Hxp as (Hxp & Hxs).
+  assert (Hb : exists b, get (x_svc x, c_mprov c) (binds s1) = Some b).
+  { apply (filter_provs_bound s1 x _ _ Ef). rewrite Hxp in Ef. simpl in Ef.
+    destruct (get (x_svc x, c_mprov c) (binds s1)) as [b|]; [|discriminate].
+    destruct (b_avail b && (b_qos b <=? x_timeout x)); [|discriminate].
+    match type of Ef with match ?g with _ => _ end = _ => destruct g; [|discriminate] end.
+    destruct (dec_truncate_int _ <=? x_cap x); inversion Ef; subst. left. reflexivity. }
+  destruct Hb as (b & Hb).
+  assert (T2 : TInv s2).
+  { destruct T1 as [I1 I2 I3 I4 I5 I6].
+    constructor; cbn [earned oearned owners binds reqs initiate_ms with_ctxs with_reqs with_led sl]; try assumption.
+    intros rid q Hin. apply in_fold_set in Hin. destruct Hin as [Hin|Hin]; [|eapply I5; exact Hin].
+    assert (Hp : In (q_prov q) [c_mprov c]).
+    { rewrite <- (mk_requests_provs sl x id (x_batch x + 1) [c_mprov c] 0). apply in_map_iff. exists (rid, q). split; [reflexivity|exact Hin]. }
+    destruct Hp as [<-|[]]. eapply I4. exact Hb. }
+  destruct (respond c s2 (id, x_batch x + 1, height s, 0) (c_mprov c) 1) as [s3| |] eqn:Er; try discriminate.
+  pose proof (TInv_respond _ _ _ _ _ _ Er T2) as T3. cbv beta iota in H. injection H as <-.
+  eapply (TInv_reqs_binds s3); [reflexivity|reflexivity|reflexivity| | |exact T3].
+  - intros rid0 q0 Hin0. exists rid0, q0. split; [exact Hin0|reflexivity].
+  - intros svc0 p1 b0 Hg0. eexists. exact Hg0.
+Qed.
+
+Lemma TInv_exec_msg c s txh m s' : exec_msg c s txh m = Okk s' -> TInv s -> TInv s'.
+Proof.
+  intros H Hinv. destruct m; cbn [exec_msg] in H; try (eapply TInv_exec_msg_plain; eassumption).
+  - destruct (module_served c svc); [discriminate|]. eapply TInv_bind; eassumption.
+  - destruct (module_served c svc); [eapply TInv_call_module; eassumption|].
+    eapply (TInv_exec_msg_plain c s txh (MCall svc provs cons inok capd capa timeout rep freq total)); eassumption.
 Qed.
 
 (** *** the end blocker *)
@@ -455,18 +514,6 @@ Proof.
   - intros svc0 p0 b0 Hg0. cbn [binds with_reqs] in Hg0. rewrite E in Hg0. eexists. exact Hg0.
 Qed.
 
-Lemma filter_provs_bound s x : forall ps0 ps, filter_provs s x ps0 = Some ps ->
-  forall p, In p ps -> exists b, get (x_svc x, p) (binds s) = Some b.
-Proof.
-  induction ps0 as [|p0 ps0 IH]; simpl; intros ps H p Hin; [inversion H; subst; contradiction|].
-  destruct (get (x_svc x, p0) (binds s)) as [b|] eqn:Eg; [|eapply IH; eassumption].
-  destruct (b_avail b && (b_qos b <=? x_timeout x)); [|eapply IH; eassumption].
-  match type of H with match ?g with _ => _ end = _ => destruct g; [|discriminate] end.
-  destruct (filter_provs s x ps0) as [ps'|] eqn:Ef; [|discriminate].
-  destruct (dec_truncate_int _ <=? x_cap x); inversion H; subst; [|eapply IH; [reflexivity|exact Hin]].
-  destruct Hin as [<-|Hin]; [exists b; exact Eg|eapply IH; [reflexivity|exact Hin]].
-Qed.
-
 Lemma TInv_new_handler s id : TInv s -> TInv (new_batch_handler s id).
 Proof.
   intros Hinv. unfold new_batch_handler. destruct (get id (ctxs s)) as [x|]; [|exact Hinv].
@@ -507,6 +554,7 @@ Proof.
   - unfold k_pause in E. t_binds E s.
   - unfold k_start in E. t_binds E s.
   - unfold k_kill in E. t_binds E s.
+  - eapply TInv_bind; eassumption.
 Qed.
 
 Lemma TInv_init h0 t0 l0 : TInv (init h0 t0 l0).
@@ -525,6 +573,7 @@ Qed.
 (** ** C08: consequences of the scheduling invariant, over every history with fresh context ids *)
 Theorem active_requests_lemma :
   forall c steps h0 t0 l0,
+    c_msvc c < 0 ->
     fresh_history c (init h0 t0 l0) steps ->
     let s := run c (init h0 t0 l0) steps in
     (forall rid q, get rid (reqs s) = Some q -> q_active q = true ->
@@ -533,7 +582,7 @@ Theorem active_requests_lemma :
           nact id (reqs s) <= x_breq x - x_bresp x /\ has id (expmark s) = true)
     /\ (forall h id x, In (h, id) (newq s) -> get id (ctxs s) = Some x -> x_brun x = false /\ get id (newmark s) = Some h).
 Proof.
-  intros c steps h0 t0 l0 Hf s. destruct (SInv_reachable c steps h0 t0 l0 Hf) as (Q & B). fold s in Q, B.
+  intros c steps h0 t0 l0 Hm Hf s. destruct (SInv_reachable c steps h0 t0 l0 Hm Hf) as (Q & B). fold s in Q, B.
   split; [exact (b_act _ B)|]. split.
   - intros id x Hg Hr. split; [exact (b_count _ B id x Hg Hr)|exact (q_run_mark _ Q id x Hg Hr)].
   - intros h id x Hin Hg. split; [exact (q_new_closed _ Q h id x Hin Hg)|exact (q_new_mark _ Q h id Hin)].
